@@ -538,7 +538,10 @@ def run_infer(case):
                                       forced_kinds=[(a, b, kind_real(c)) for a, b, c in forced] or None)
     except Exception as ex:  # noqa: BLE001 - the class is the observable
         return ("exc", type(ex).__name__), stored, forced, None
-    nconf = sum(1 for line in buf.getvalue().splitlines() if line.startswith("trying to derive 'kind'"))
+    import re
+    conf = re.findall(r"^trying to derive 'kind' for '(.*?)' in '(.*?)': ", buf.getvalue(), re.M)
+    nconf = len(conf)
+    t.c09_conflicts = conf
     g = [(k, kind_str(v)) for k, v in t.global_table.items()]
     pp = [(ph, [(k, kind_str(v)) for k, v in tb.items()]) for ph, tb in t.per_phase_table.items()]
     return ("ok", g, pp, nconf), stored, forced, t
@@ -570,7 +573,7 @@ Import ListNotations.
 Open Scope string_scope.
 Open Scope list_scope.
 From Dagrt Require Import GenC09 Kinds.
-Definition cfg0 : cfg := mkCfg c09_power_returns_kind c09_new_entry_marks c09_isnan_any c09_state_exact c09_state_prefixes.
+Definition cfg0 : cfg := mkCfg c09_power_returns_kind c09_new_entry_marks c09_isnan_any c09_conflict_raises c09_state_exact c09_state_prefixes.
 Fixpoint tbl_eqb (a b : tbl) : bool :=
   match a, b with
   | [], [] => true
@@ -670,9 +673,16 @@ class RecCtx(dict):
         super().__init__()
         self.log = []
         self.now = None
+        self.undefined = set()      # statements that read a name holding no value (it evaluates to None)
+
+    def __contains__(self, k):
+        r = dict.__contains__(self, k)
+        if not r:
+            self.undefined.add(self.now)
+        return r
 
     def __setitem__(self, k, v):
-        self.log.append((self.now, k, classify(v)))
+        self.log.append((self.now, k, classify(v), self.now in self.undefined))
         dict.__setitem__(self, k, v)
 
 
@@ -727,13 +737,18 @@ def run_program(case, t, variant=0, steps=None):
     for _ in range(nsteps):
         phase = interp.next_phase
         ctx.log.clear()
+        ctx.undefined.clear()
         try:
             with contextlib.redirect_stdout(io.StringIO()):
                 for _evt in interp.run_single_step():
                     pass
         except Exception:  # noqa: BLE001 - a run-time error ends the step; what was stored before still counts
             pass
-        for sid, k, c in ctx.log:
+        for sid, k, c, undef in ctx.log:
+            if undef:
+                # the statement read a name that holds no value: this execution is outside the property
+                # (Kinds.creach only schedules `defined` statements); what it stored before still counted
+                return None, checked
             checked += 1
             found, kind = table_lookup(t, phase, k)
             ks = kind_str(kind) if found else "missing"
@@ -806,7 +821,7 @@ def classify_failure(case, stored, t, o):
         for s in stmts:
             if s[0] == "assign" and any(l[0] == var for l in s[4]) and (pn == ph or var in t.global_table):
                 kinds.add("KInt")
-    if len(kinds) > 1:
+    if len(kinds) > 1 or any(v == var for v, _p in getattr(t, "c09_conflicts", ())):
         return "mixed_kind_assignments"
     for pn, e in exprs:
         for sube in subexprs(e):
@@ -838,6 +853,12 @@ def classify_failure(case, stored, t, o):
         if s[0] == "call" and (any(_real_kind(t, reg, pn, c).startswith("exc:") for c in s[3])
                                or not _call_check_ok(t, reg, pn, ("call", s[2], s[3], s[4]))):
             return "unchecked_operand_kinds"
+    # classes of defects that have a repair (never suppressed: they only separate the reports)
+    for pn, e in exprs:
+        if any(sube[0] == "pow" and _real_kind(t, reg, pn, sube) == "None" for sube in subexprs(e)):
+            return "power_kind_none"
+    if len(kinds) == 1 and o.get("table_kind") not in kinds and not any(k.startswith("call:") for k in kinds):
+        return "stale_first_kind"
     return None
 
 
@@ -855,6 +876,12 @@ def _call_check_ok(t, reg, phase, e):
         return True
     except Exception:  # noqa: BLE001
         return False
+
+
+def kf_text(f):
+    line = f.get("line", "")
+    pre = "KNOWN-FINDING: property=%s " % PID
+    return line[len(pre):] if line.startswith(pre) else f.get("what_fails", line)
 
 
 def all_known():
@@ -1552,7 +1579,7 @@ def main(tier):
         cls = key2.split(":", 1)[1] if key2 and ":" in key2 else None
         if cls in known_classes:
             f = known_classes[cls]
-            rep.known_finding(f.get("what_fails", f.get("line", cls)))
+            rep.known_finding(kf_text(f))
             continue
         rep.violation({"what": "kind inference succeeds but " + (
             "an assigned variable has no kind" if ex2["failure"]["kind"] == "no_kind" else
@@ -1570,7 +1597,7 @@ def main(tier):
         seen.add(f["builtin"])
         cls = "builtin_result_kind:" + f["builtin"]
         if cls in known_classes:
-            rep.known_finding(known_classes[cls].get("what_fails", cls))
+            rep.known_finding(kf_text(known_classes[cls]))
             continue
         rep.violation({"what": "a built-in returns a value whose class does not inhabit its declared result kind",
                        "builtin_case": f, "failure_class": cls, "replay": "./check C09 --replay <this file>"})
